@@ -187,6 +187,50 @@ def special_table():
                     bad.append([nm + ' host float', ka, repr(h)])
             except Exception as ex:  # noqa
                 bad.append([nm + ' host float raised ' + type(ex).__name__, ka, repr(h)])
+    # comparisons and hashing against host floats, with redundant (wide) encodings of values a double holds
+    wide = {'1e18': (RealFloat.from_int(10 ** 18), Fraction(10 ** 18)), '2^64': (RealFloat(False, 0, 2 ** 64), Fraction(2 ** 64)), '1 wide': (RealFloat(False, -60, 1 << 60), Fraction(1)),
+            '-2.5 wide': (RealFloat(True, -70, 5 << 69), Fraction(-5, 2)), 'F 3 wide': (Float(False, -62, 3 << 62), Fraction(3)), '2^70+1': (RealFloat(False, 0, 2 ** 70 + 1), Fraction(2 ** 70 + 1))}
+    for (ka, (a, qa)), h in itertools.product(wide.items(), [1e18, 2.0 ** 64, 1.0, -2.5, 3.0, 2.0 ** 70, 0.5]):
+        qh = Fraction(h)
+        n += 1
+        try:
+            got = [bool(a == h), bool(a != h), bool(a < h), bool(a <= h), bool(a > h), bool(a >= h), bool(h == a), bool(h < a)]
+            want = [qa == qh, qa != qh, qa < qh, qa <= qh, qa > qh, qa >= qh, qh == qa, qh < qa]
+            if got != want:
+                bad.append(['cmp host float', ka, repr(h)])
+            if qa == qh and hash(a) != hash(h):
+                bad.append(['hash host float', ka, repr(h)])
+        except Exception as ex:  # noqa
+            bad.append(['cmp host float raised ' + type(ex).__name__, ka, repr(h)])
+    # hashing is a function of the value, whatever was computed or hashed before (hash first, then derive a new value from it)
+    for ka, a in list(vals.items()) + [(k, v[0]) for k, v in reals.items()]:
+        if isinstance(a, Float) and a.isnan:
+            continue
+        n += 1
+        try:
+            hash(a)
+            for nm, b in (('neg', -a), ('abs', abs(a)), ('pos', +a), ('sq', a * a if not (isinstance(a, Float) and a.isinf) else a ** 2)):
+                if isinstance(b, Float) and b.is_nar():
+                    fb = -math.inf if b.s else math.inf
+                    if hash(b) != hash(fb):
+                        bad.append(['hash after ' + nm, ka])
+                elif hash(b) != hash(b.as_rational() if isinstance(b, Float) else Fraction(b.m) * Fraction(2) ** b.exp):
+                    bad.append(['hash after ' + nm, ka])
+        except Exception as ex:  # noqa
+            bad.append(['hash after op raised ' + type(ex).__name__, ka])
+    # a rational that is not dyadic has no exact RealFloat / Float: from_rational refuses it however close its denominator is to a power of two
+    for q in (Fraction(1, 2 ** 52 - 1), Fraction(3, 2 ** 60 + 1), Fraction(1, 2 ** 1100 + 3), Fraction(5, 2 ** 49 + 1), Fraction(1, 3), Fraction(7, 2 ** 53 - 1)):
+        for nm, fn in (('RealFloat.from_rational', lambda: RealFloat.from_rational(q)), ('Float.from_rational', lambda: Float.from_rational(q)),
+                       ('RealFloat + Fraction', lambda: RealFloat(False, 0, 1) + q), ('Float * Fraction', lambda: Float(False, 0, 3) * q)):
+            n += 1
+            try:
+                r = fn()
+            except (ValueError, TypeError, ArithmeticError):
+                continue
+            want = q if 'from' in nm else (1 + q if '+' in nm else 3 * q)
+            rv = r.as_rational() if isinstance(r, Float) else Fraction(r.m) * Fraction(2) ** r.exp
+            if rv != want:
+                bad.append([nm + ' returned a different number', str(q)[:40]])
     for ka, a in vals.items():
         fa = ref[ka]
         n += 3
